@@ -61,14 +61,10 @@ HasSiblingQuad(X) ==
 Normalized(Xs) == IsValidSeq(Xs) /\ ~HasSiblingQuad(Range(Xs))
 
 \* the unique normal form of a leaf set: the maximal cells lying inside it
-RECURSIVE FullAt(_, _, _)
-FullAt(S, D, l) ==
-    IF l = D THEN {CellOfLeaf(g, D) : g \in S}
-    ELSE LET below == FullAt(S, D, l + 1)
-         IN  {Parent(x) : x \in {y \in below : y[3] % 4 = 0 /\
-                                   \A d \in 1..3 : <<y[1], y[2], y[3] + d>> \in below}}
+CellInside(c, S, D) == Leaves(c, D) \subseteq S                          \* level <= D
 Canon(S, D) ==
-    UNION {{c \in FullAt(S, D, l) : l = 0 \/ Parent(c) \notin FullAt(S, D, l - 1)} : l \in 0..D}
+    LET cand == UNION {{AncestorAt(CellOfLeaf(g, D), l) : l \in 0..D} : g \in S}
+    IN  {c \in cand : CellInside(c, S, D) /\ (c[2] = 0 \/ ~CellInside(Parent(c), S, D))}
 SortCells(X) ==
     LET L == MaxLevelOf(X) IN SetToSortSeq(X, LAMBDA a, b : Lo(a, L) < Lo(b, L))
 
